@@ -61,30 +61,36 @@ Definition read_back (f : fs) (base id : list N) : option bytes :=
 
 Definition nonempty (id : list N) : bool := match id with [] => false | _ => true end.
 
-(* the shapes the guard can take (T1: tools/gen/handoff_guard.py reads which one the source has) *)
-Inductive aguard :=
-| GNonEmptyIsFile     (* !id.is_empty() && blobs.join(id).is_file()   - the code as built *)
-| GIsFile             (* blobs.join(id).is_file() *)
-| GNonEmptyExists     (* !id.is_empty() && blobs.join(id).exists() *)
-| GExists.            (* blobs.join(id).exists() *)
-
-Definition guard_eval (g : aguard) (f : fs) (base id : list N) : bool :=
-  match g with
-  | GNonEmptyIsFile => nonempty id && is_file_at f base id
-  | GIsFile => is_file_at f base id
-  | GNonEmptyExists => nonempty id && exists_at f base id
-  | GExists => exists_at f base id
-  end.
-
 (* an id that is ONE plain name: not empty, no separator, not "." / ".." - the shape of every id rip draws itself
    (64 hex digits) and the repair proposed for finding S30 *)
 Definition plain (id : list N) : bool :=
   nonempty id && negb (existsb (N.eqb 47) id) && negb (seg_dot id) && negb (seg_dotdot id).
 Definition guard_plain (f : fs) (base id : list N) : bool := plain id && is_file_at f base id.
 
+(* the shapes the guard can take (T1: tools/gen/handoff_guard.py reads which one the source has) *)
+Inductive aguard :=
+| GPlainIsFile        (* id is ONE normal path component equal to itself && blobs.join(id).is_file()
+                         - the code as built since the repair of S30 *)
+| GNonEmptyIsFile     (* !id.is_empty() && blobs.join(id).is_file()   - the code as found *)
+| GIsFile             (* blobs.join(id).is_file() *)
+| GNonEmptyExists     (* !id.is_empty() && blobs.join(id).exists() *)
+| GExists.            (* blobs.join(id).exists() *)
+
+Definition guard_eval (g : aguard) (f : fs) (base id : list N) : bool :=
+  match g with
+  | GPlainIsFile => guard_plain f base id
+  | GNonEmptyIsFile => nonempty id && is_file_at f base id
+  | GIsFile => is_file_at f base id
+  | GNonEmptyExists => nonempty id && exists_at f base id
+  | GExists => exists_at f base id
+  end.
+
 (* the guards under which an accepted id can be read back (proved: ArtGuardProofs.guard_sound_resolves) *)
 Definition guard_sound (g : aguard) : bool :=
-  match g with GNonEmptyIsFile | GIsFile => true | _ => false end.
+  match g with GPlainIsFile | GNonEmptyIsFile | GIsFile => true | _ => false end.
+(* the guard under which an accepted id is a blob OF THE STORE (ArtGuardProofs.guard_confines_store) *)
+Definition guard_confines (g : aguard) : bool :=
+  match g with GPlainIsFile => true | _ => false end.
 
 (* ---- the handoff of Model/Lineage.v over the file system: the caller's id (number a, bytes id) is "in the
    artifact store" exactly when the guard lets it pass; summary class = caller-given artifact id, with or
@@ -100,7 +106,7 @@ Definition under_base (base : list N) (p : path) : bool := is_prefix (comps base
 
 (* ---------- correspondence ---------- *)
 Definition guard_of_code (n : N) : aguard :=
-  match n with 0 => GNonEmptyIsFile | 1 => GIsFile | 2 => GNonEmptyExists | _ => GExists end.
+  match n with 0 => GNonEmptyIsFile | 1 => GIsFile | 2 => GNonEmptyExists | 4 => GPlainIsFile | _ => GExists end.
 
 Record acase := {
   a_fs : fs;            (* listing of the real file system: ancestors of the scratch root, everything below it;
